@@ -68,6 +68,7 @@ func vAddr(name string) net.Addr {
 }
 
 const (
+	vWindow   = time.Second // the validity window of the model (V = 2 ticks): RFC 9853 path validation timeout of the library
 	vTick     = 650 * time.Millisecond
 	vLateness = 250 * time.Millisecond
 )
@@ -127,6 +128,11 @@ func vReplay(idx int, sc *vScript, wrap bool) (res vResult) { //nolint:cyclop,go
 			clock++
 			target := start.Add(time.Duration(clock-1) * vTick)
 			time.Sleep(time.Until(target))
+			if time.Since(target) > vLateness { // overslept on a busy machine: the script is re-run, not judged
+				res.Late = true
+
+				return res
+			}
 			// the model's timers fire inside the tick: give the AfterFunc goroutines time to run
 			deadline := time.Now().Add(vLateness)
 			for {
@@ -202,8 +208,8 @@ func vReplay(idx int, sc *vScript, wrap bool) (res vResult) { //nolint:cyclop,go
 					viol(i, "response accepted for a cancelled (never sent) challenge")
 				case is.used:
 					viol(i, "response accepted twice for one challenge")
-				case before.Sub(is.at) >= pathValidationTimeout:
-					viol(i, "response accepted %v after the challenge (window %v)", before.Sub(is.at), pathValidationTimeout)
+				case before.Sub(is.at) >= vWindow:
+					viol(i, "response accepted %v after the challenge (window %v)", before.Sub(is.at), vWindow)
 				}
 				// a validated path ends every outstanding challenge
 				for _, other := range issued {
@@ -248,7 +254,12 @@ func vReplay(idx int, sc *vScript, wrap bool) (res vResult) { //nolint:cyclop,go
 
 			return res
 		}
-		// compare the path table with the model
+		// compare the path table with the model (still inside the time slot of this model time)
+		if clock > 1 && time.Since(start) > time.Duration(clock-1)*vTick+vLateness {
+			res.Late = true
+
+			return res
+		}
 		mgr.mu.Lock()
 		names := make([]string, 0, len(st.Post))
 		for name := range st.Post {
